@@ -252,8 +252,9 @@ def generate(rng, tier, run, seed=0):
     eol = rng.choice(['', '\n', '\r\n']) if seg_term != '\n' else ''
     text = envgen.serialise(segs, seg_term, '*', ':', eol)
     plan = _c01.gen_plan(rng, text, 8192, seg_term)
+    full = rng.random() < 0.08
     return {'segs': segs, 'faults': fired, 'seg_term': seg_term, 'eol': eol, 'plan': plan,
-            'check_lx': rng.random() < 0.7, 'bufsize': rng.choice([8192, 8192, 64, 7])}
+            'check_lx': True if full else rng.random() < 0.7, 'bufsize': rng.choice([8192, 8192, 64, 7]), 'full': full}
 
 
 # ------------------------------------------------------------------ execution
@@ -282,6 +283,39 @@ def execute(case):
     rc = E.recount(segs, case['check_lx'])
     for f in case['faults']:
         out.fault(f)
+    if case.get('full'):
+        # the same stream through a full validation: the envelope errors must reach the error tree (isa/gs/st lists,
+        # HL/LX as segment errors); the body segments of a skeleton are not map conformant, which is irrelevant here
+        import observe
+        r = observe.validate(text, sinks=(), plan=case['plan'], log=log, bufsize=case['bufsize'])
+        out.probe('full-validation')
+        if r.exc is not None:
+            out.probe('full-validation-raised')      # totality is C07's business
+            out.digest = log.digest()
+            return out
+        got = {}
+        for e in r.errors:
+            k = (e.level, e.code)
+            if k in E.TRACKED:
+                got[k] = got.get(k, 0) + 1
+        want = rc.multiset()
+        if rc.nested:
+            g, w = dict(got), dict(want)
+            if rc.hl2_dontcare:
+                g.pop(('seg', 'HL2'), None)
+                w.pop(('seg', 'HL2'), None)
+            if g != w:
+                missing = sorted(k for k in w if g.get(k, 0) < w[k])
+                extra = sorted(k for k in g if g[k] > w.get(k, 0))
+                out.violate('mismatch', 'full|missing=%s|extra=%s' % (','.join('%s%s' % k for k in missing), ','.join('%s%s' % k for k in extra)),
+                            'full validation of a properly nested stream: error tree holds %s, independent recount finds %s (faults %s)' % (
+                                sorted(g.items()), sorted(w.items()), case['faults']))
+        elif not got and not [e for e in r.errors if e.level in ('isa', 'gs', 'st')]:
+            out.violate('silent', 'full|silent-on-improper-nesting', 'full validation: improper nesting but no envelope error in the tree (faults %s)' % case['faults'])
+        out.cover.add('full|%s|%s' % (','.join(sorted(case['faults'])), 'nested' if rc.nested else 'improper'))
+        out.steps = log.seq
+        out.digest = log.digest()
+        return out
     try:
         per, tail = observe_reader(text, case['plan'], case['bufsize'], case['check_lx'], log)
     except pyx12.errors.X12Error as e:
